@@ -26,6 +26,11 @@ type c07Case struct {
 var c07Groupings = []string{"SELECT * FROM t6%s", "SELECT a, av FROM t6%s GROUP BY x", "SELECT * FROM t6%s GROUP BY period(2s)", "SELECT a FROM t6%s GROUP BY _, period(3s)", "SELECT z0, a, ca FROM t6%s"}
 var c07GroupBys = [][]string{nil, {"x"}, nil, {"_"}, nil}
 
+// groupings 5 and 6: the outer range applies to a FROM-subquery that has an absolute range of its own (half seconds)
+const c07NestedFirst = 5
+
+var c07NestedInner = [][2]int{{0, 8}, {2, 6}}
+
 func c07Grid() []string {
 	g := []string{}
 	for h := -2; h <= 14; h++ {
@@ -45,7 +50,72 @@ func c07Instant(spec string, now int64) (int64, string) {
 	return now + int64(d), spec[4:]
 }
 
+// c07CheckNested: an outer range over a FROM-subquery with a range of its own must select what a direct query with the
+// intersection of the two ranges selects (relative outer offsets count from the database clock, not from the inner
+// query's until).
+func c07CheckNested(c *fw.Ctx, env *t6Env, cs c07Case) {
+	if cs.AsOf == "" {
+		return
+	}
+	now := int64(cs.NowHalf) * sec / 2
+	inner := c07NestedInner[cs.Grouping-c07NestedFirst]
+	inA, inALit := c07Instant(fmt.Sprintf("abs:%d", inner[0]), now)
+	inU, inULit := c07Instant(fmt.Sprintf("abs:%d", inner[1]), now)
+	reqA, lit := c07Instant(cs.AsOf, now)
+	clause := fmt.Sprintf(" ASOF '%s'", lit)
+	reqU := int64(math.MaxInt64)
+	if cs.Until != "" {
+		reqU, lit = c07Instant(cs.Until, now)
+		clause += fmt.Sprintf(" UNTIL '%s'", lit)
+	}
+	c.Eval(1)
+	nested := fmt.Sprintf("SELECT a, ca FROM (SELECT a, ca FROM t6 ASOF '%s' UNTIL '%s')%s", inALit, inULit, clause)
+	effA, effU := inA, inU
+	if reqA > effA {
+		effA = reqA
+	}
+	if reqU < effU {
+		effU = reqU
+	}
+	ctx := fmt.Sprintf("%s (dataset %v split %d now=%v)", nested, cs.Dataset, cs.Split, time.Duration(now))
+	got, gerr := env.db.Query(nested, true)
+	if effA >= effU || reqA >= reqU {
+		if gerr == nil && len(got.Rows) > 0 {
+			c.Violate("C07", "rows-for-empty-range", fmt.Sprintf("%s: the ranges do not intersect but %d rows returned: %v", ctx, len(got.Rows), got.Canon()), cs)
+		}
+		return
+	}
+	abs := func(v int64) string { return dbdrv.Epoch.Add(time.Duration(v)).Format(time.RFC3339Nano) }
+	direct := fmt.Sprintf("SELECT a, ca FROM t6 ASOF '%s' UNTIL '%s'", abs(effA), abs(effU))
+	want, werr := env.db.Query(direct, true)
+	if werr != nil {
+		c.Count("nested_direct_form_refused", 1)
+		return
+	}
+	if gerr != nil {
+		if reqA < inA || reqU > inU {
+			// the outer range reaches outside the subquery's own window: refusing it is the table-window rule
+			c.Count("nested_refused_outer_range_outside_inner_window", 1)
+			return
+		}
+		c.Violate("C07", "query-error", fmt.Sprintf("%s: %v (the direct form %s works)", ctx, gerr, direct), cs)
+		return
+	}
+	if fmt.Sprint(got.Canon()) != fmt.Sprint(want.Canon()) {
+		c.Violate("C07", "nested-range-differs-from-intersection", fmt.Sprintf("%s returns\n%v\nbut %s returns\n%v", ctx, got.Canon(), direct, want.Canon()), cs)
+		return
+	}
+	if len(want.Rows) > 0 && len(want.Rows) < len(env.pts) {
+		c.Nontrivial(fmt.Sprintf("%v|%d|%d|%s", cs.Dataset, cs.Split, cs.NowHalf, nested))
+	}
+	c.Outcome(fmt.Sprintf("nested %d rows", len(got.Rows)))
+}
+
 func c07Check(c *fw.Ctx, env *t6Env, cs c07Case) {
+	if cs.Grouping >= c07NestedFirst {
+		c07CheckNested(c, env, cs)
+		return
+	}
 	now := int64(cs.NowHalf) * sec / 2
 	clause := ""
 	reqA, reqU := int64(math.MinInt64), int64(math.MaxInt64)
@@ -156,8 +226,16 @@ func c07RunDataset(c *fw.Ctx, set []t6Cell, split int, only *c07Case) {
 			}
 			continue
 		}
-		for gi := range c07Groupings {
+		for gi := 0; gi < c07NestedFirst+len(c07NestedInner); gi++ {
 			if gi == 4 && split != 3 {
+				continue
+			}
+			if gi >= c07NestedFirst {
+				for _, a := range grid {
+					for _, u := range append([]string{""}, grid...) {
+						c07Check(c, env, c07Case{Dataset: set, Split: split, NowHalf: nh, AsOf: a, Until: u, Grouping: gi})
+					}
+				}
 				continue
 			}
 			c07Check(c, env, c07Case{Dataset: set, Split: split, NowHalf: nh, Grouping: gi})
@@ -178,7 +256,7 @@ func init() {
 	fw.Register(&fw.Prop{
 		ID:          "C07",
 		Level:       "exploration",
-		Rule:        "datasets (4 rich sets + all single cells (quick) / + all pairs (thorough)) × storage {memory, disk, split, altered (a field added in front of the others half-way: the columns of one row cover different periods)} × clock {period end, mid-period} × (asOf, until) over {absent} ∪ {every boundary and mid-period instant from 1 s before the data to 2 s after, as RFC3339} ∪ {relative -1s, -2500ms, -5s} (asOf >= until pairs included) × grouping {native, GROUP BY x, period(2s), _ with period(3s), and for the altered table the added field named first}; oracle: interval oracle of C06 with the must-window (asOf, until] ∩ table window (every native period wholly inside is covered exactly once with values recomputed from raw points), no row ending at or before asOf or beginning at or after until, straddling periods unconstrained, empty ranges give an error or no rows, refusals only for asOf before the table window or sub-period ranges, default window brackets (now - retention, now] within one resolution; non-trivial = range that keeps some but not all points",
+		Rule:        "datasets (4 rich sets + all single cells (quick) / + all pairs (thorough)) × storage {memory, disk, split, altered (a field added in front of the others half-way: the columns of one row cover different periods)} × clock {period end, mid-period} × (asOf, until) over {absent} ∪ {every boundary and mid-period instant from 1 s before the data to 2 s after, as RFC3339} ∪ {relative -1s, -2500ms, -5s} (asOf >= until pairs included) × grouping {native, GROUP BY x, period(2s), _ with period(3s), and for the altered table the added field named first}, plus the same (asOf, until) grid applied to FROM-subqueries with absolute ranges of their own, which must select what the direct query with the intersected range selects; oracle: interval oracle of C06 with the must-window (asOf, until] ∩ table window (every native period wholly inside is covered exactly once with values recomputed from raw points), no row ending at or before asOf or beginning at or after until, straddling periods unconstrained, empty ranges give an error or no rows, refusals only for asOf before the table window or sub-period ranges, default window brackets (now - retention, now] within one resolution; non-trivial = range that keeps some but not all points",
 		Assumptions: []string{"relative offsets are relative to the database (virtual) clock"},
 		Shards:      func(tier string) int { return 16 },
 		Budget: func(tier string) time.Duration {
